@@ -183,7 +183,17 @@ func c07LineCase(w *mon.Worker, r *rand.Rand) mon.Result {
 	if r.IntN(3) == 0 {
 		return c07MultiDelete(d, r)
 	}
-	switch r.IntN(15) {
+	switch r.IntN(19) {
+	case 15:
+		// a map of the document bound to a variable and edited THROUGH the variable before it is appended
+		u = upd{fmt.Sprintf(`.["%s"] as $t | .%s += [$t | .zz_t = 30]`, d.mapKeys[0], seq), []string{seq}}
+	case 16:
+		u = upd{fmt.Sprintf(`.["%s"] as $t | .zz_new = ($t | del(.image))`, d.mapKeys[0]), []string{"zz_new"}}
+	case 17:
+		// a merge whose LEFT operand is a map of the document, as the value of an assignment
+		u = upd{fmt.Sprintf(`.zz_eff = .["%s"] * {"image": "merged", "zz_m": 1}`, d.mapKeys[0]), []string{"zz_eff"}}
+	case 18:
+		u = upd{fmt.Sprintf(`.zz_all = .%s *+ ["more"]`, seq), []string{"zz_all"}}
 	case 13:
 		// appending to a list rebuilds it from its elements: maps with complex keys come through intact
 		u = upd{`.cx += ["x"]`, nil}
@@ -264,7 +274,7 @@ func c07LineCase(w *mon.Worker, r *rand.Rand) mon.Result {
 		var rb, rg []string
 		rb, ok1 = cutBlock(b, k)
 		rg, ok2 = cutBlock(g, k)
-		if !ok1 && ok2 && strings.HasPrefix(u.expr, "."+k+" =") {
+		if !ok1 && ok2 && (strings.HasPrefix(u.expr, "."+k+" =") || strings.Contains(u.expr, "| ."+k+" =")) {
 			ok1 = true // the block is new: there is nothing to cut out of `yq .`
 		}
 		if !ok1 || !ok2 {
